@@ -34,6 +34,116 @@ func rulesC12(c *Ctx) {
 	ruleC12Listener(c)
 	ruleC12Truth(c)
 	ruleC12Case(c)
+	ruleC12TokenWhitespace(c)
+}
+
+// ruleC12TokenWhitespace: the grammar folds optional words into one token ("not" WS+ "in") and WS is any
+// of space, tab, CR, LF.  Token text is therefore never matched against a literal that itself contains
+// white space: such a match holds for one spelling of the white space and fails for the others, so the
+// meaning of the query would depend on how it is spaced.
+func ruleC12TokenWhitespace(c *Ctx) {
+	p := c.P
+	lst := p.Named("ast", "ToBoltListener")
+	var fromText func(v ssa.Value, depth int) bool
+	fromText = func(v ssa.Value, depth int) bool {
+		if v == nil || depth > 5 {
+			return false
+		}
+		switch x := v.(type) {
+		case *ssa.Call:
+			if x.Call.IsInvoke() && x.Call.Method.Name() == "GetText" {
+				return true
+			}
+			for _, a := range x.Call.Args {
+				if fromText(a, depth+1) {
+					return true
+				}
+			}
+		case *ssa.Slice:
+			return fromText(x.X, depth+1)
+		case *ssa.Convert:
+			return fromText(x.X, depth+1)
+		case *ssa.Phi:
+			for _, e := range x.Edges {
+				if fromText(e, depth+1) {
+					return true
+				}
+			}
+		case *ssa.Parameter:
+			// a helper's text parameter: the callers' arguments
+			fn := x.Parent()
+			idx := -1
+			for i, q := range fn.Params {
+				if q == x {
+					idx = i
+				}
+			}
+			for _, caller := range p.CallGraph().callers[fn] {
+				for _, call := range callsIn(caller) {
+					if call.Common().StaticCallee() == fn && idx >= 0 && idx < len(call.Common().Args) && fromText(call.Common().Args[idx], depth+1) {
+						return true
+					}
+				}
+			}
+		}
+		return false
+	}
+	hasWS := func(v ssa.Value) (string, bool) {
+		k, ok := v.(*ssa.Const)
+		if !ok || k.Value == nil || k.Value.Kind() != constant.String {
+			return "", false
+		}
+		s := constant.StringVal(k.Value)
+		return s, strings.ContainsAny(s, " \t\r\n")
+	}
+	n := 0
+	for _, fn := range c.prodFuncs("ast") {
+		root := fn
+		for root.Parent() != nil {
+			root = root.Parent()
+		}
+		inListener := root.Signature.Recv() != nil && namedOf(root.Signature.Recv().Type()) == lst
+		for _, b := range fn.Blocks {
+			for _, in := range b.Instrs {
+				var ops []ssa.Value
+				switch x := in.(type) {
+				case *ssa.Call:
+					cal, _ := calleeOf(x.Common())
+					if cal == nil || cal.Pkg() == nil || cal.Pkg().Path() != "strings" {
+						continue
+					}
+					ops = x.Call.Args
+				case *ssa.BinOp:
+					if x.Op != token.EQL && x.Op != token.NEQ {
+						continue
+					}
+					ops = []ssa.Value{x.X, x.Y}
+				default:
+					continue
+				}
+				var lit *ssa.Const
+				text := false
+				for _, o := range ops {
+					if k, ok := o.(*ssa.Const); ok && k.Value != nil && k.Value.Kind() == constant.String {
+						lit = k
+					} else if fromText(o, 0) {
+						text = true
+					}
+				}
+				if lit == nil || !text {
+					continue
+				}
+				if !inListener && fn.Pkg != nil && fn.Pkg.Pkg.Name() != "ast" {
+					continue
+				}
+				n++
+				s, bad := hasWS(lit)
+				c.Check(!bad, "C12.TOKENWS", FnName(fn)+": token text matched against "+strconv.Quote(s), p.Pos(in.Pos()), "the literal contains no white space", "token text is matched against a literal containing white space: inside a token any of space, tab, CR, LF (and any number of them) may separate the words, so the match — and with it the meaning of the query — depends on how the query is spaced")
+			}
+		}
+	}
+	c.CallSites(n)
+	c.Floor("C12.TOKENWS", 1)
 }
 
 // ---- PREC ------------------------------------------------------------------------------------
